@@ -298,11 +298,16 @@ def items(tier: str, seed: int) -> List[Dict[str, Any]]:
                 out.append({"ob": "layout_independence", "params": {"group": GROUPS[g], "prefix": [first], "L": 3}, "timeout": 400,
                             "label": f"layout_independence[{g},K=4,{first}+2]"})
     else:
-        for g in GROUPS:
-            for first in EVENTS:
+        # length 4 (two events fixed per item) for the K=4 groups; length 3 for the larger groups
+        for g in ("idle", "regions", "mixed", "busy"):
+            for first in ("GO", "LEAVE", "BACK", "BACKS", "RE"):
                 for second in EVENTS:
-                    out.append({"ob": "layout_independence", "params": {"group": GROUPS[g], "prefix": [first, second], "L": 4}, "timeout": 2400,
+                    out.append({"ob": "layout_independence", "params": {"group": GROUPS[g], "prefix": [first, second], "L": 4}, "timeout": 900,
                                 "label": f"layout_independence[{g},K={len(GROUPS[g])},{first},{second}+2]"})
+        for g in ("leaves5", "deep5"):
+            for first in ("GO", "LEAVE", "BACK", "BACKS", "RE"):
+                out.append({"ob": "layout_independence", "params": {"group": GROUPS[g], "prefix": [first], "L": 3}, "timeout": 1200,
+                            "label": f"layout_independence[{g},K={len(GROUPS[g])},{first}+2]"})
     for lo in range(0, 16 if quick else 64, 4):
         out.append({"ob": "hashseed_independence", "params": {"group": [], "seeds": [lo + 1, lo + 5]}, "timeout": 300,
                     "label": f"hashseed_independence[PYTHONHASHSEED {lo + 1}..{lo + 4}]"})
